@@ -312,7 +312,7 @@ def prog_intlen(w, rng):
             break
 
 
-ERR_KINDS = ["index-get", "index-set", "array-length", "string-too-long", "item-too-large", "union-non-member", "wrong-context", "offset-without-buffer"]
+ERR_KINDS = ["index-get", "index-set", "array-length", "string-too-long", "item-too-large", "struct-other-shape", "union-non-member", "wrong-context", "offset-without-buffer"]
 
 
 def prog_err(w, rng):
@@ -579,7 +579,10 @@ def prog_update(w, rng):
 
 PROGRAMS = {
     "C01": lambda w, rng: (prog_defaults if rng.random() < 0.08 else prog_repeat if rng.random() < 0.2 else prog_construct)(w, rng),
-    "C05": lambda w, rng: (prog_defaults if rng.random() < 0.08 else prog_construct if rng.random() < 0.6 else prog_copy)(w, rng),      # copy-construction writes objects too
+    # copy-construction writes objects too; so do assignments - and an assignment that must be refused but is carried out may leave bytes
+    # that are no longer an object of the format (a text without room for its NUL): the fmt:/decode: clauses of set and err steps are C05's
+    "C05": lambda w, rng: (prog_defaults if rng.random() < 0.08 else prog_err if rng.random() < 0.1 else prog_set if rng.random() < 0.15
+                           else prog_construct if rng.random() < 0.6 else prog_copy)(w, rng),
     "C03": lambda w, rng: (prog_intlen if rng.random() < 0.06 else prog_err if rng.random() < 0.1 else prog_copy if rng.random() < 0.3 else (prog_construct if rng.random() < 0.4 else prog_set))(w, rng),
     "C06": lambda w, rng: (prog_construct if rng.random() < 0.2 else (prog_view_copy if rng.random() < 0.2 else (prog_update if rng.random() < 0.2 else (prog_set if rng.random() < 0.6 else prog_copy))))(w, rng),
     "C10": lambda w, rng: (prog_update if rng.random() < 0.1 else prog_set)(w, rng),
